@@ -101,10 +101,13 @@ def main(tier):
         chk.cov["distinct_nontrivial"] = nb
         chk.cov["exhaustive"] = True
         chk.cov["rule"] = ("every (context, leaf type, structure spec in {none,'T'}, tree) row of the MC_JtPyTree universe "
-                           "(all trees of depth<=2, width<=2 over the stated node kinds and atoms) executed on the code and "
+                           "(all trees of depth<=2, width<=2 over the stated node kinds and atoms; a second universe with equal-but-differently-"
+                           "typed leaves, empty arrays and width-3 containers; a third with registered nodes that are array-like and array "
+                           "leaf types over Any; unions in both spellings) executed on the code and "
                            "re-decided by TLC; plus random trees of depth<=4 / width<=3 over all node kinds and bare PyTree; "
                            "non-trivial = accepted rows that created bindings")
-        chk.cov["constants"] = {"quick": {k: sorted(v) if isinstance(v, set) else v for k, v in QUICK.items()}}
+        chk.cov["constants"] = {nm: {k: sorted(v) if isinstance(v, set) else v for k, v in u.items()}
+                                for nm, u in (("quick", QUICK), ("equal_empty", EQUAL_EMPTY), ("array_nodes", ARRAY_NODES))}
         chk.assumptions += ["JAX's tree_util defines what the structure of a real tree is (abstracter)",
                             "leaf types are checked by the bundled typeguard as in the implementation; the catalogue of "
                             "leaf types is finite (see LeafCatalogue)",
